@@ -92,6 +92,9 @@ pub struct OpSpec {
     /// put_many only: the call names ids[0] a second time, last, with different bytes
     #[serde(default)]
     pub dup: bool,
+    /// puts only: the document values are empty (zero bytes)
+    #[serde(default)]
+    pub empty: bool,
 }
 
 /// Commands handed to the in-host driver task.
@@ -176,6 +179,14 @@ pub fn level_of(s: &str) -> Consistency {
 
 fn value_for(node: u8, op_id: usize, id: u64) -> Vec<u8> {
     format!("n{node}:op{op_id}:id{id}").into_bytes()
+}
+
+fn payload_for(spec: &OpSpec, node: u8, op_id: usize, id: u64) -> Vec<u8> {
+    if spec.empty {
+        Vec::new()
+    } else {
+        value_for(node, op_id, id)
+    }
 }
 
 /// Newest row per id in `ks` of a store.
@@ -653,9 +664,9 @@ async fn run_op(sh: &SharedRef, node: u8, h: &ReplicatedStoreHandle<SimStorage>,
     let calls_at_invoke = sh.borrow().stores[&node].st.lock().calls.len();
     let level = level_of(&spec.level);
     let res = match spec.kind.as_str() {
-        "put" => h.put(&spec.ks, spec.ids[0], value_for(node, op_id, spec.ids[0]), level).await,
+        "put" => h.put(&spec.ks, spec.ids[0], payload_for(&spec, node, op_id, spec.ids[0]), level).await,
         "put_many" => {
-            let mut docs: Vec<(u64, Vec<u8>)> = spec.ids.iter().map(|i| (*i, value_for(node, op_id, *i))).collect();
+            let mut docs: Vec<(u64, Vec<u8>)> = spec.ids.iter().map(|i| (*i, payload_for(&spec, node, op_id, *i))).collect();
             if spec.dup {
                 let mut second = value_for(node, op_id, spec.ids[0]);
                 second.extend_from_slice(b"#second-copy");
@@ -694,7 +705,7 @@ async fn run_op(sh: &SharedRef, node: u8, h: &ReplicatedStoreHandle<SimStorage>,
             .skip(calls_at_invoke)
             .filter(|c| c.keyspace == spec.ks && c.kind == want_kind && c.applied > 0)
             .filter(|c| c.items.iter().all(|(k, t)| spec.ids.contains(k) && t.node() == node))
-            .filter(|c| is_del || c.items.iter().zip(c.datas.iter()).all(|((k, _), d)| d.as_deref() == Some(value_for(node, op_id, *k).as_slice())))
+            .filter(|c| is_del || c.items.iter().zip(c.datas.iter()).all(|((k, _), d)| d.as_deref() == Some(payload_for(&spec, node, op_id, *k).as_slice())))
             .filter_map(|c| c.items.first().map(|x| x.1))
             .collect();
         let sup = spec.ids.iter().all(|id| st.rows.get(&spec.ks).and_then(|m| m.get(id)).is_some());
